@@ -1255,7 +1255,8 @@ class Interp:
                 el = Sym(it.sym.path + "[*]")
             self.bind(e["pat"], VTuple([Sym(it.sym.path + "[#]"), el]) if isinstance(it, VSymEnum) else el, env2)
             carried = sorted(n for n in _assigned_names(e["body"]) if n in env and n not in _pat_names(e["pat"]) and n not in _let_names(e["body"])
-                             and not isinstance(env[n], (VArr, VCoeffVec, VStruct)))
+                             and not isinstance(env[n], (VArr, VCoeffVec, VStruct))
+                             and not (isinstance(env[n], VOpaque) and env[n].name in ("zeros", "updated")))      # index-filled vectors are not loop-carried scalars
             for n in carried:
                 set_var(env, n, Sym(f"carried:{n}"))
             saved_log, saved_exits, saved_loop = self.ctx.log, self.ctx.exits, getattr(self, "generic_loop", None)
@@ -1695,6 +1696,9 @@ class Interp:
         n = self.expr(e["len"], env)
         if isinstance(n, int) and n <= 4096:
             return VArr([_deep_copy(v) for _ in range(n)], "vec")      # n CLONES (mutable element values must not alias)
+        if isinstance(v, Poly) and v.is_zero() and self.consts.get("__index_fill"):
+            # index-filled vectors (`v[i] = x` for every i): the zero vector of symbolic length as an opaque base of `updated(..)` values
+            return VOpaque("zeros", [n])
         if isinstance(v, Poly) and v.is_zero():
             # `vec![BlsScalar::zero(); n]` with symbolic n: the zero coefficient vector (of that length)
             return VCoeffVec(C(0), 0, 0, known_len=False)
@@ -2321,6 +2325,19 @@ class Interp:
                 self.ctx.log, self.generic_loop = saved, saved_loop
             if sub:
                 self.ctx.event("for_each_in_order", recv.base.path, sub)
+            return UNIT
+        if m == "for_each" and isinstance(recv, VSymEnum) and isinstance(args[0], VClosure) and self.consts.get("__index_fill"):
+            # `xs.iter().enumerate().for_each(|(i, x)| B)` over a collection of unknown length: B runs once on the generic pair (index xs[#],
+            # element xs[*]); an index assignment `v[i] = f(x)` inside it means "for EVERY i" (the value of v becomes updated(v, xs[#], f(xs[*])))
+            saved, saved_loop = self.ctx.log, getattr(self, "generic_loop", None)
+            self.ctx.log, self.generic_loop = [], recv.sym
+            try:
+                self.call_closure(args[0], [VTuple([Sym(recv.sym.path + "[#]"), Sym(recv.sym.path + "[*]")])])
+                sub = tuple(self.ctx.log)
+            finally:
+                self.ctx.log, self.generic_loop = saved, saved_loop
+            if sub:
+                self.ctx.event("for_each_in_order", recv.sym.path, sub)
             return UNIT
         if m == "for_each" and isinstance(recv, VIter) and isinstance(args[0], VClosure):
             for x in recv.items:
